@@ -26,11 +26,25 @@ Proof.
   clear H1 H2. f_equal. apply Qlt_alt. apply Qlt_alt in H1', H2'. eapply Qlt_trans; eauto.
 Qed.
 
+Lemma ascii_lt_trans a b c : Ascii.compare a b = Lt -> Ascii.compare b c = Lt -> Ascii.compare a c = Lt.
+Proof. unfold Ascii.compare. rewrite !N.compare_lt_iff. apply N.lt_trans. Qed.
+
+Lemma string_lt_trans : forall x a b, String.compare x a = Lt -> String.compare a b = Lt -> String.compare x b = Lt.
+Proof.
+  induction x as [|c1 x IH]; intros [|c2 a] [|c3 b]; simpl; try discriminate; auto.
+  destruct (Ascii.compare c1 c2) eqn:C12; try discriminate;
+    destruct (Ascii.compare c2 c3) eqn:C23; try discriminate; intros H1 H2.
+  - apply Ascii.compare_eq_iff in C12. subst c2. rewrite C23. eauto.
+  - apply Ascii.compare_eq_iff in C12. subst c2. rewrite C23. reflexivity.
+  - apply Ascii.compare_eq_iff in C23. subst c3. rewrite C12. reflexivity.
+  - rewrite (ascii_lt_trans _ _ _ C12 C23). reflexivity.
+Qed.
+
+(* x < a, a < b  =>  not (x > b): integers, floats (NaN never satisfies x < a), strings *)
 Lemma lt_lt_not_gt v a b :
-  (vty a = TInt \/ vty a = TFloat) ->
   cmp_val OLt v a = Some true -> cmp_val OLt a b = Some true -> cmp_val OGt v b = Some false.
 Proof.
-  intros T. destruct v, a, b; simpl; try discriminate; try (destruct T as [T|T]; discriminate).
+  destruct v, a, b; simpl; try discriminate.
   - intros H1 H2. f_equal.
     destruct (Z.compare_spec z z0); simpl in H1; try discriminate.
     destruct (Z.compare_spec z0 z1); simpl in H2; try discriminate.
@@ -39,6 +53,10 @@ Proof.
     destruct (fl_compare f f0) as [[]|] eqn:C1; try discriminate.
     destruct (fl_compare f0 f1) as [[]|] eqn:C2; try discriminate.
     rewrite (fl_lt_trans _ _ _ C1 C2). reflexivity.
+  - intros H1 H2.
+    destruct (String.compare s s0) eqn:C1; try discriminate.
+    destruct (String.compare s0 s1) eqn:C2; try discriminate.
+    rewrite (string_lt_trans _ _ _ C1 C2). reflexivity.
 Qed.
 
 (* ---------- badCond ---------- *)
@@ -46,10 +64,9 @@ Theorem bad_cond_false_partial l r x a b va vb :
   unparen l = EBinary OLt x a -> unparen r = EBinary OGt x b ->
   no_opaque x = true ->
   const_val a = Some va -> const_val b = Some vb -> cmp_val OLt va vb = Some true ->
-  (vty va = TInt \/ vty va = TFloat) ->
   always false (EBinary OLAnd l r).
 Proof.
-  intros Ul Ur P Ca Cb Lt T en h v h' Hen E.
+  intros Ul Ur P Ca Cb Lt en h v h' Hen E.
   destruct (no_opaque_pure en x P) as [rx Hx].
   rewrite (eval_land en) in E. rewrite <- (evalS_unparen en l), Ul in E.
   rewrite (eval_cmp_generic en OLt x a h eq_refl), (Hx h) in E.
@@ -59,32 +76,33 @@ Proof.
   - rewrite <- (evalS_unparen en r), Ur in E.
     rewrite (eval_cmp_generic en OGt x b h eq_refl), (Hx h) in E. simpl in E.
     rewrite (const_val_eval en b vb Cb h) in E. simpl in E.
-    rewrite (lt_lt_not_gt v1 va vb T C1 Lt) in E. simpl in E. inversion E; reflexivity.
+    rewrite (lt_lt_not_gt v1 va vb C1 Lt) in E. simpl in E. inversion E; reflexivity.
   - inversion E; reflexivity.
 Qed.
 
-(* the matcher itself does not ask for purity: an impure operand refutes the claim *)
+(* before commit 408944d the matcher did not ask for purity: an impure operand refuted the claim *)
 Definition w_badcond : expr :=
   EBinary OLAnd (EBinary OLt (ECall (FOpaque "f" TInt) []) (ELit LInt "1" TInt))
                 (EBinary OGt (ECall (FOpaque "f" TInt) []) (ELit LInt "5" TInt)).
 Definition w_badcond_env : env := env_of [] [("f", fun n => match n with O => VInt 0 | _ => VInt 9 end)].
 
-Theorem bad_cond_impure_refuted :
-  exists en e, env_ok en /\ typeof e = Some TBool /\ bad_cond_less_and_greater e = true /\
+Theorem bad_cond_prefix_impure_refuted :
+  exists en e, env_ok en /\ typeof e = Some TBool /\ bad_cond_less_and_greater_prefix e = true /\
     bad_cond_message e = "`f() < 1 && f() > 5` condition is always false" /\
-    eval en e = Some (RVal (VBool true), [Ev "f" [] (VInt 0); Ev "f" [] (VInt 9)]).
+    eval en e = Some (RVal (VBool true), [Ev "f" [] (VInt 0); Ev "f" [] (VInt 9)]) /\
+    bad_cond_less_and_greater e = false.
 Proof. exists w_badcond_env, w_badcond. split; [apply env_of_ok|]. vm_compute. repeat split. Qed.
 
-(* the matcher is exactly "x < a && x > b with constants a < b" *)
+(* the current matcher is exactly "x < a && x > b with side-effect-free x and constants a < b" *)
 Lemma bad_cond_matcher_inv e :
   bad_cond_less_and_greater e = true ->
   exists l r x a b va vb, e = EBinary OLAnd l r /\ unparen l = EBinary OLt x a /\ unparen r = EBinary OGt x b /\
-    const_val a = Some va /\ const_val b = Some vb /\ cmp_val OLt va vb = Some true.
+    sef_typed x = true /\ const_val a = Some va /\ const_val b = Some vb /\ cmp_val OLt va vb = Some true.
 Proof.
   destruct e as [| | | |[] l r| | |]; simpl; try discriminate.
   destruct (unparen l) as [| | | |[] x a| | |] eqn:Ul; try discriminate.
   destruct (unparen r) as [| | | |[] x' b| | |] eqn:Ur; try discriminate.
-  intros H. apply andb_true_iff in H as [H1 H2]. apply expr_eqb_eq in H1. subst x'.
+  intros H. apply andb_true_iff in H as [H1 H2]. apply andb_true_iff in H1 as [H1 S]. apply expr_eqb_eq in H1. subst x'.
   unfold const_less in H2. destruct (const_val a) as [va|] eqn:Ca; [|discriminate].
   destruct (const_val b) as [vb|] eqn:Cb; [|discriminate].
   destruct (cmp_val OLt va vb) as [[]|] eqn:C; try discriminate.
@@ -162,6 +180,13 @@ Proof.
   - apply andb_true_iff in S as [S1 S2]. rewrite IHe1, IHe2; auto.
 Qed.
 
+(* badCond, total: every expression the current matcher flags is false whenever it yields a value *)
+Theorem bad_cond_false e : bad_cond_less_and_greater e = true -> always false e.
+Proof.
+  intros H. destruct (bad_cond_matcher_inv e H) as (l & r & x & a & b & va & vb & -> & Ul & Ur & S & Ca & Cb & Lt).
+  eapply bad_cond_false_partial; eauto. apply sef_typed_no_opaque; exact S.
+Qed.
+
 Theorem dup_sub_expr_same o x y : dup_sub_expr (EBinary o x y) = true -> same_value x y.
 Proof.
   unfold dup_sub_expr. intros H. apply andb_true_iff in H as [H E]. apply andb_true_iff in H as [_ S].
@@ -169,6 +194,41 @@ Proof.
   intros en h Hen. split; [reflexivity|].
   destruct (no_opaque_pure en x (sef_typed_no_opaque x S)) as [rx Hx].
   intros o0 h'. rewrite (Hx h). destruct rx; simpl; intros H0; inversion H0; reflexivity.
+Qed.
+
+(* dupArg: the two arguments are the same value and evaluating them has no effects *)
+Theorem dup_arg_same p x y : dup_arg (ECall (FPrim p) [x; y]) = true -> same_value x y.
+Proof.
+  unfold dup_arg. intros H. apply andb_true_iff in H as [H P]. apply andb_true_iff in H as [_ E].
+  apply expr_eqb_eq in E. subst y.
+  intros en h Hen. split; [reflexivity|].
+  destruct (no_opaque_pure en x (rg_pure_no_opaque x P)) as [rx Hx].
+  intros o0 h'. rewrite (Hx h). destruct rx; simpl; intros H0; inversion H0; reflexivity.
+Qed.
+
+(* nilValReturn: inside `if x == k { ... }` a side-effect-free x evaluates again to a value equal to k, without
+   events (k: any operand that yields the same value at every history, as nil does) *)
+Theorem nil_val_return_nil en x k vk h h1 :
+  env_ok en -> sef_typed x = true -> (forall h', evalS en k h' = Some (RVal vk, h')) ->
+  evalS en (EBinary OEq x k) h = Some (RVal (VBool true), h1) ->
+  h1 = h /\ exists v, evalS en x h1 = Some (RVal v, h1) /\ cmp_val OEq v vk = Some true.
+Proof.
+  intros Hen S Hk E.
+  destruct (no_opaque_pure en x (sef_typed_no_opaque x S)) as [rx Hx].
+  rewrite (eval_cmp_generic en OEq x k h eq_refl), (Hx h) in E.
+  destruct rx as [[v1|]|]; simpl in E; try discriminate.
+  rewrite (Hk h) in E. simpl in E.
+  destruct (cmp_val OEq v1 vk) as [[]|] eqn:C; simpl in E; try discriminate.
+  inversion E; subst h1. split; [reflexivity|]. exists v1. split; [apply (Hx h)|exact C].
+Qed.
+
+Theorem nil_val_return_flagged_pure s : nil_val_return s = true ->
+  sef_typed (nvr_x s) = true /\ In (Some (nvr_x s)) (nvr_results s).
+Proof.
+  unfold nil_val_return. intros H. repeat (apply andb_true_iff in H as [H ?]).
+  split; [assumption|].
+  match goal with E : existsb _ _ = true |- _ => apply existsb_exists in E as (r & Hin & Hr) end.
+  destruct r as [e|]; [|discriminate]. apply expr_eqb_eq in Hr. subst e. exact Hin.
 Qed.
 
 (* why == != <= >= are exempted for float operands: x == x is not a tautology *)
@@ -217,9 +277,9 @@ Proof.
   - intros H. destruct (IH H) as (tj & Hin & Hi). eauto.
 Qed.
 
-Lemma case_order_from_spec impl : forall suffix pre ifaces i j,
+Lemma case_order_from_prefix_spec impl : forall suffix pre ifaces i j,
   (forall j0 tj, In (j0, tj) ifaces -> nth_error pre j0 = Some (tj, KIface)) ->
-  In (i, j) (case_order_from impl suffix ifaces (List.length pre)) ->
+  In (i, j) (case_order_from_prefix impl suffix ifaces (List.length pre)) ->
   exists t k tj, nth_error (pre ++ suffix)%list i = Some (t, k) /\ nth_error (pre ++ suffix)%list j = Some (tj, KIface) /\
     (j < i)%nat /\ impl t tj = true.
 Proof.
@@ -246,16 +306,53 @@ Proof.
     inversion Hnew; subst. rewrite nth_error_app2 by lia. rewrite Nat.sub_diag. reflexivity.
 Qed.
 
+Lemma case_order_from_spec impl : forall suffix pre ifaces i j,
+  (forall j0 tj, In (j0, tj) ifaces -> nth_error pre j0 = Some (tj, KIface)) ->
+  In (i, j) (case_order_from impl suffix ifaces (List.length pre)) ->
+  exists t k tj, nth_error (pre ++ suffix)%list i = Some (t, k) /\ nth_error (pre ++ suffix)%list j = Some (tj, KIface) /\
+    (j < i)%nat /\ impl t tj = true /\ k <> KNil.
+Proof.
+  induction suffix as [|[t k] r IH]; intros pre ifaces i j Hinv Hin; [contradiction|].
+  assert (Rec : In (i, j) (case_order_from impl r (match k with KIface => (ifaces ++ [(List.length pre, t)])%list | _ => ifaces end) (S (List.length pre))) ->
+                exists t0 k0 tj, nth_error (pre ++ (t, k) :: r)%list i = Some (t0, k0) /\ nth_error (pre ++ (t, k) :: r)%list j = Some (tj, KIface) /\
+                  (j < i)%nat /\ impl t0 tj = true /\ k0 <> KNil).
+  { intros Hrec.
+    specialize (IH (pre ++ [(t, k)])%list (match k with KIface => (ifaces ++ [(List.length pre, t)])%list | _ => ifaces end) i j).
+    rewrite app_length in IH. simpl in IH. rewrite Nat.add_1_r in IH.
+    rewrite <- app_assoc in IH. simpl in IH. apply IH; auto.
+    intros j0 tj0 Hj0.
+    assert (Old : In (j0, tj0) ifaces -> nth_error (pre ++ [(t, k)])%list j0 = Some (tj0, KIface)).
+    { intros Hold. pose proof (Hinv _ _ Hold) as Hn.
+      assert (j0 < List.length pre)%nat by (apply nth_error_Some; rewrite Hn; discriminate).
+      rewrite nth_error_app1 by lia. exact Hn. }
+    destruct k; auto.
+    apply in_app_or in Hj0 as [Hold|[Hnew|[]]]; auto.
+    inversion Hnew; subst. rewrite nth_error_app2 by lia. rewrite Nat.sub_diag. reflexivity. }
+  destruct k; simpl in Hin; [apply Rec; exact Hin| |];
+    (apply in_app_or in Hin as [Hin|Hin]; [|apply Rec; exact Hin]);
+    (destruct (find_iface impl t ifaces) as [j0|] eqn:F; [|contradiction]);
+    (destruct Hin as [Hin|[]]); inversion Hin; subst i j0;
+    destruct (find_iface_In _ _ _ _ F) as (tj & Hj & Hi);
+    pose proof (Hinv _ _ Hj) as Hn;
+    assert (j < List.length pre)%nat by (apply nth_error_Some; rewrite Hn; discriminate).
+  - exists t, KConcrete, tj. repeat split; auto; try discriminate.
+    + rewrite nth_error_app2 by lia. rewrite Nat.sub_diag. reflexivity.
+    + rewrite nth_error_app1 by lia. exact Hn.
+  - exists t, KIface, tj. repeat split; auto; try discriminate.
+    + rewrite nth_error_app2 by lia. rewrite Nat.sub_diag. reflexivity.
+    + rewrite nth_error_app1 by lia. exact Hn.
+Qed.
+
 Lemma nth_error_split_eq {A} (pre post : list A) e i x :
   nth_error (pre ++ e :: post)%list i = Some x -> i = List.length pre -> x = e.
 Proof. intros H ->. rewrite nth_error_app2 in H by lia. rewrite Nat.sub_diag in H. inversion H; reflexivity. Qed.
 
-Theorem case_order_unreachable_partial impl es i j t k :
-  In (i, j) (case_order impl es) -> nth_error es i = Some (t, k) -> k <> KNil ->
+Theorem case_order_prefix_unreachable_partial impl es i j t k :
+  In (i, j) (case_order_prefix impl es) -> nth_error es i = Some (t, k) -> k <> KNil ->
   impl_trans_on impl es -> unreachable_entry impl es i.
 Proof.
   intros Hin Hn Hk Htr v Hfm.
-  destruct (case_order_from_spec impl es [] [] i j (fun _ _ H => match H with end) Hin)
+  destruct (case_order_from_prefix_spec impl es [] [] i j (fun _ _ H => match H with end) Hin)
     as (t' & k' & tj & Hi & Hj & Hlt & Himpl).
   simpl in Hi, Hj. pose proof (eq_trans (eq_sym Hn) Hi) as HE. inversion HE; subst t' k'. clear HE Hi.
   destruct (first_match_spec _ _ _ _ _ Hfm) as (pre & e & post & Hes & Hidx & Hm & Hpre).
@@ -271,11 +368,32 @@ Proof.
     congruence.
 Qed.
 
-(* `case nil` after `case interface{}`: flagged, yet it is the arm a nil interface value takes *)
-Theorem case_order_nil_refuted :
-  exists impl es i j, In (i, j) (case_order impl es) /\ nth_error es i = Some (0%N, KNil) /\
-    impl_trans_on impl es /\ first_match impl es DNil 0 = Some i.
+(* caseOrder, total: a flagged case entry can never be the one that is taken *)
+Theorem case_order_unreachable impl es i j :
+  In (i, j) (case_order impl es) -> impl_trans_on impl es -> unreachable_entry impl es i.
+Proof.
+  intros Hin Htr v Hfm.
+  destruct (case_order_from_spec impl es [] [] i j (fun _ _ H => match H with end) Hin)
+    as (t & k & tj & Hn & Hj & Hlt & Himpl & Hk).
+  simpl in Hn, Hj.
+  destruct (first_match_spec _ _ _ _ _ Hfm) as (pre & e & post & Hes & Hidx & Hm & Hpre).
+  simpl in Hidx. subst es.
+  pose proof (nth_error_split_eq _ _ _ _ _ Hn Hidx) as <-.
+  assert (Hjpre : In (tj, KIface) pre).
+  { rewrite nth_error_app1 in Hj by lia. eapply nth_error_In; eauto. }
+  pose proof (Hpre _ Hjpre) as Hnm. unfold entry_matches in Hm, Hnm. simpl in Hm, Hnm.
+  destruct k; [congruence| |]; destruct v as [|t0]; try discriminate.
+  - apply N.eqb_eq in Hm. subst t0. congruence.
+  - assert (impl t0 tj = true).
+    { apply (Htr t0 t tj); auto; apply in_or_app; [right; left; reflexivity|left; exact Hjpre]. }
+    congruence.
+Qed.
+
+(* before commit e000017: `case nil` after `case interface{}` was flagged, yet it is the arm a nil interface value takes *)
+Theorem case_order_prefix_nil_refuted :
+  exists impl es i j, In (i, j) (case_order_prefix impl es) /\ nth_error es i = Some (0%N, KNil) /\
+    impl_trans_on impl es /\ first_match impl es DNil 0 = Some i /\ case_order impl es = [].
 Proof.
   exists (fun _ _ => true), [(1%N, KIface); (0%N, KNil)], 1, 0.
-  split; [left; reflexivity|]. split; [reflexivity|]. split; [intros t j i _ _ _ _; reflexivity|reflexivity].
+  split; [left; reflexivity|]. split; [reflexivity|]. split; [intros t j i _ _ _ _; reflexivity|split; reflexivity].
 Qed.
